@@ -197,6 +197,19 @@ func (s *nspStore) getOrCreate(
 	return
 }
 
+func (s *nspStore) getAll() (nsps []*Namespace) {
+	s.mu.Lock()
+	defer s.mu.Unlock()
+
+	nsps = make([]*Namespace, len(s.nsps))
+	i := 0
+	for _, nsp := range s.nsps {
+		nsps[i] = nsp
+		i++
+	}
+	return
+}
+
 func (s *nspStore) len() int {
 	s.mu.Lock()
 	defer s.mu.Unlock()
